@@ -205,6 +205,10 @@ def process_function(res, rep, contract, repo, findings, opts):
             continue
         # nothing reproduced natively
         r, spec, verdict, path = tried[-1]
+        if all(t[0].get('weak') for t in tried):
+            # the only counter-models came from the query WITHOUT the lemma axioms: not a refutation
+            res.undecided.append({'obligation': name, 'why': 'candidate counterexample (lemma axioms dropped) did not replay; full query unknown'})
+            continue
         res.violations.append({'obligation': name, 'replay': path, 'confirmed': False,
                                'detail': 'refuted by the solver; no failing input reproduced natively (%s)' % verdict.get('detail', ''),
                                'witness': spec['args']})
